@@ -2,6 +2,7 @@ import PharmpyModel.Core.Sexp
 import PharmpyModel.C04.Theta
 import PharmpyModel.C04.Omega
 import PharmpyModel.C04.OmegaDiag
+import PharmpyModel.C04.ThetaShape
 open Pharmpy Pharmpy.C04
 
 /-! Line-protocol driver of C04 (plumbing only). -/
@@ -150,6 +151,12 @@ def handle (req : Sexp) : Sexp :=
       | .ok qs => .list [.atom "ok", .list (qs.map parsedS)]
       | .error e => .list [.atom "err", .atom (perrS e)]
     | _ => bad
+  | .list [.atom "sidecond", r, ps] =>
+    match rec? r, params? ps with
+    | some r, some ps =>
+      .list [Sexp.ofBool (recShapeOK r), Sexp.ofBool (paramsOK ps), Sexp.ofBool (noRepeatSplit r ps),
+             Sexp.ofBool (match parseRec (updRec r ps) with | .ok qs => decide (qs = ps.map Param.toParsed) | .error _ => false)]
+    | _, _ => bad
   | .list [.atom "grammar", r] =>
     match rec? r with
     | some r => Sexp.ofBool (recGrammarOK r)
